@@ -41,6 +41,7 @@ type Solver struct {
 	SolveTime time.Duration
 	errors    []string
 	lastSat   bool
+	nsync     int
 }
 
 func NewSolver(kind string, ts *TermStore, timeoutMs int) (*Solver, error) {
@@ -180,42 +181,52 @@ func (s *Solver) readLine() (string, error) {
 	}
 }
 
+// sync sends an echo marker and returns all output lines produced before it.
+func (s *Solver) sync() ([]string, error) {
+	s.nsync++
+	marker := fmt.Sprintf("gosym-sync-%d", s.nsync)
+	s.send("(echo \"" + marker + "\")")
+	var lines []string
+	for {
+		line, err := s.readLine()
+		if err != nil {
+			return lines, err
+		}
+		if strings.Contains(line, marker) {
+			return lines, nil
+		}
+		lines = append(lines, line)
+	}
+}
+
 // Check runs (check-sat). Any error line or unknown is reported as Unknown.
 func (s *Solver) Check() SatResult {
 	t0 := time.Now()
 	s.send("(check-sat)")
 	s.Queries++
 	res := Unknown
-	for {
-		line, err := s.readLine()
-		if err != nil {
-			s.errors = append(s.errors, "solver died: "+err.Error())
-			break
-		}
-		if line == "sat" {
+	lines, err := s.sync()
+	if err != nil {
+		s.errors = append(s.errors, "solver died: "+err.Error())
+	}
+	sawErr := false
+	for _, line := range lines {
+		switch {
+		case line == "sat":
 			res = Sat
-			break
-		}
-		if line == "unsat" {
+		case line == "unsat":
 			res = Unsat
-			break
+		case line == "unknown" || line == "timeout":
+			res = Unknown
+		case strings.HasPrefix(line, "(error"):
+			sawErr = true
+			if len(s.errors) < 50 {
+				s.errors = append(s.errors, line)
+			}
 		}
-		if line == "unknown" || line == "timeout" {
-			break
-		}
-		if strings.HasPrefix(line, "(error") {
-			s.errors = append(s.errors, line)
-			// an error for an earlier command; the answer of check-sat cannot be trusted
-			// read the check-sat answer and discard it
-			l2, _ := s.readLine()
-			_ = l2
-			break
-		}
-		// unsupported / warnings: keep reading
-		s.errors = append(s.errors, "unexpected: "+line)
-		if len(s.errors) > 1000 {
-			break
-		}
+	}
+	if sawErr {
+		res = Unknown // an earlier command failed: the answer cannot be trusted
 	}
 	s.SolveTime += time.Since(t0)
 	switch res {
@@ -261,11 +272,12 @@ func (s *Solver) GetModel(vars []*Term) (Model, error) {
 			names = append(names, smtName(v))
 		}
 		s.send("(get-value (" + strings.Join(names, " ") + "))")
-		txt, err := s.readSexpr()
+		ls, err := s.sync()
 		if err != nil {
 			return nil, err
 		}
-		if strings.HasPrefix(txt, "(error") {
+		txt := strings.Join(ls, "\n")
+		if strings.Contains(txt, "(error") {
 			return nil, fmt.Errorf("get-value: %s", txt)
 		}
 		if err := parseValues(txt, m); err != nil {
@@ -285,11 +297,12 @@ func (s *Solver) GetValues(terms []*Term) ([]*big.Int, error) {
 		}
 		s.define(t)
 		s.send("(get-value (" + smtName(t) + "))")
-		txt, err := s.readSexpr()
+		ls, err := s.sync()
 		if err != nil {
 			return nil, err
 		}
-		if strings.HasPrefix(txt, "(error") {
+		txt := strings.Join(ls, "\n")
+		if strings.Contains(txt, "(error") {
 			return nil, fmt.Errorf("get-value: %s", txt)
 		}
 		// ((name value))
